@@ -49,6 +49,18 @@ pub struct SessionCase {
     /// supervisor): `howl` installs its handler all the same
     #[serde(default)]
     pub sigint_ignored_at_start: bool,
+    /// connections that have been served one request and sit idle in keep-alive when the interrupt arrives (0–2): open
+    /// sessions like the others — the accept loop must notice the interrupt all the same, and `howl` returns after
+    /// their clients have closed them
+    #[serde(default)]
+    pub idle_keepalive: u8,
+    /// a second SIGINT while the sessions are being waited for (an impatient operator): it changes nothing
+    #[serde(default)]
+    pub second_sigint: bool,
+    /// 1–3 connections arrive (request sent) while the runtime thread is busy in a handler, and so does the interrupt:
+    /// the accept loop finds them ready together with the flag. Those it accepts (hook point A1) are sessions in flight
+    #[serde(default)]
+    pub late: u8,
 }
 
 // ---------------------------------------------------------------- part 1: controller
@@ -546,7 +558,7 @@ pub fn child_main(port: u16) -> ! {
         let _ = l.flush();
     }
     ohkami::__verif_sched__::install(Box::new(|name| {
-        if name == "L0" || name == "L1" {
+        if name == "L0" || name == "L1" || name == "A1" {
             say(name)
         }
     }));
@@ -587,6 +599,15 @@ pub fn child_main(port: u16) -> ! {
         async fn whoami() -> String {
             format!("pid={}", std::process::id())
         }
+        // keeps the (single) runtime thread busy: nothing else is polled meanwhile
+        async fn spin(ms: u32) -> String {
+            say("spinning");
+            std::thread::sleep(Duration::from_millis(ms as u64));
+            "spun".to_string()
+        }
+        async fn late(id: u32) -> String {
+            format!("late {id}")
+        }
         async fn ws(id: u32, ctx: ohkami::ws::WebSocketContext<'_>) -> ohkami::ws::WebSocket {
             ctx.upgrade(move |mut conn| async move {
                 say(&format!("start {id}"));
@@ -600,7 +621,7 @@ pub fn child_main(port: u16) -> ! {
                 say(&format!("handled {id}"));
             })
         }
-        let o = Ohkami::new(("/block/:id".GET(block), "/boom/:id".GET(boom), "/ws/:id".GET(ws), "/whoami".GET(whoami)));
+        let o = Ohkami::new(("/block/:id".GET(block), "/boom/:id".GET(boom), "/ws/:id".GET(ws), "/whoami".GET(whoami), "/spin/:ms".GET(spin), "/late/:id".GET(late)));
         // `listening` is printed before the bind happens inside howl; the parent retries its connects
         say("listening");
         o.howl(("127.0.0.1", port)).await;
@@ -765,8 +786,65 @@ fn run_sessions(sc: &SessionCase, obs: &mut Obs) {
         }
         conns.push(s);
     }
+    // idle keep-alive connections: one request served, the connection stays open
+    let idle_n = if ws { 0 } else { (sc.idle_keepalive % 3) as usize };
+    let mut idle_conns: Vec<std::net::TcpStream> = Vec::new();
+    for k in 0..idle_n {
+        let Ok(mut s) = std::net::TcpStream::connect(("127.0.0.1", port)) else {
+            obs.fail("connect-refused-before-interrupt", format!("idle connection {k}"));
+            finish(&mut child);
+            return;
+        };
+        let _ = s.set_read_timeout(Some(Duration::from_secs(10)));
+        let _ = s.write_all(b"GET /whoami HTTP/1.1\r\nHost: t\r\n\r\n");
+        let mut got = Vec::new();
+        let mut buf = [0u8; 1024];
+        loop {
+            if matches!(crate::oracle::http::parse_response(&got, false), Ok(r) if r.consumed <= got.len()) {
+                break;
+            }
+            match s.read(&mut buf) {
+                Ok(0) | Err(_) => break,
+                Ok(n) => got.extend_from_slice(&buf[..n]),
+            }
+        }
+        if !String::from_utf8_lossy(&got).contains("pid=") {
+            obs.fail("HARNESS-BUG c18-idle-connection-not-served", format!("{:?}", String::from_utf8_lossy(&got)));
+            finish(&mut child);
+            return;
+        }
+        idle_conns.push(s);
+    }
+    if idle_n > 0 {
+        obs.label("idle-keep-alive-sessions");
+    }
+    // late arrivals: the runtime thread is kept busy by one more in-flight session (`/spin`); meanwhile connections
+    // arrive with their requests, and then the interrupt
+    let late_n = if ws { 0 } else { (sc.late % 4) as usize };
+    let mut spin_conn: Option<std::net::TcpStream> = None;
+    let mut late_conns: Vec<std::net::TcpStream> = Vec::new();
+    if late_n > 0 {
+        obs.label("late-arrivals-with-the-interrupt");
+        if let Ok(mut s) = std::net::TcpStream::connect(("127.0.0.1", port)) {
+            let _ = s.set_read_timeout(Some(Duration::from_secs(10)));
+            let _ = s.write_all(b"GET /spin/300 HTTP/1.1\r\nHost: t\r\nConnection: close\r\n\r\n");
+            if !child.wait_line("spinning", Duration::from_secs(10)) {
+                obs.fail("HARNESS-BUG c18-handler-did-not-start", "the spinning handler did not start".to_string());
+                finish(&mut child);
+                return;
+            }
+            spin_conn = Some(s);
+            for id in 0..late_n {
+                if let Ok(mut l) = std::net::TcpStream::connect(("127.0.0.1", port)) {
+                    let _ = l.set_read_timeout(Some(Duration::from_secs(10)));
+                    let _ = l.write_all(format!("GET /late/{id} HTTP/1.1\r\nHost: t\r\nConnection: close\r\n\r\n").as_bytes());
+                    late_conns.push(l);
+                }
+            }
+        }
+    }
     let order = crate::harness::app::permutation(before, sc.release_seed);
-    let early = if ws { 0 } else { (sc.release_early as usize).min(before) };
+    let early = if ws || late_n > 0 { 0 } else { (sc.release_early as usize).min(before) };
     let mut responses: Vec<Option<Vec<u8>>> = vec![None; before];
     let mut read_response = |conns: &mut Vec<std::net::TcpStream>, id: usize| -> Option<Vec<u8>> {
         let mut got = Vec::new();
@@ -839,6 +917,12 @@ fn run_sessions(sc: &SessionCase, obs: &mut Obs) {
             }
         }
     }
+    if sc.second_sigint {
+        obs.label("second-interrupt-while-draining");
+        unsafe {
+            libc::kill(child.proc.id() as i32, libc::SIGINT);
+        }
+    }
     // howl must not have returned while sessions are in flight
     if ws {
         // … however long they last: past the keep-alive timeout (1 s here) no HTTP session could still be open,
@@ -846,7 +930,7 @@ fn run_sessions(sc: &SessionCase, obs: &mut Obs) {
         std::thread::sleep(Duration::from_millis(1700));
     }
     child.drain();
-    let in_flight = before - early;
+    let in_flight = before - early + idle_n;
     if in_flight > 0 && child.seen.iter().any(|l| l == "howl returned") {
         obs.fail(if ws { "howl-returned-with-websocket-sessions-in-flight" } else { "howl-returned-with-sessions-in-flight" }, format!("`howl` returned while {in_flight} session(s) were still blocked in their handlers (events: {:?})", child.seen));
     }
@@ -875,14 +959,36 @@ fn run_sessions(sc: &SessionCase, obs: &mut Obs) {
             obs.fail("in-flight-session-cut-off", format!("session {id} was in flight at the interrupt but did not receive its complete response (got {:?}; events {:?})", r.as_ref().map(|b| String::from_utf8_lossy(b).into_owned()), child.seen));
         }
     }
+    // the session that kept the runtime busy, and the late arrivals: whatever the accept loop took (A1 after the
+    // handler's `spinning`) is a session in flight and gets its complete response
+    let mut late_served = 0usize;
+    if let Some(mut s) = spin_conn {
+        let mut got = Vec::new();
+        let _ = s.read_to_end(&mut got);
+        if !crate::oracle::http::parse_response(&got, false).map_or(false, |p| p.status == 200 && p.body == b"spun") {
+            obs.fail("in-flight-session-cut-off", format!("the session that was busy at the interrupt did not receive its complete response (got {:?}; events {:?})", String::from_utf8_lossy(&got), child.seen));
+        }
+        for (id, l) in late_conns.iter_mut().enumerate() {
+            let mut got = Vec::new();
+            let _ = l.read_to_end(&mut got);
+            if crate::oracle::http::parse_response(&got, false).map_or(false, |p| p.status == 200 && p.body == format!("late {id}").as_bytes()) {
+                late_served += 1;
+            } else if !got.is_empty() {
+                obs.fail("in-flight-session-cut-off", format!("late connection {id} received an incomplete response {:?}", String::from_utf8_lossy(&got)));
+            }
+        }
+    }
+    let late_total = late_conns.len();
+    drop(late_conns);
     // the clients close; now howl must return and the process exit
     let mut open_conns = conns;
+    open_conns.extend(idle_conns);
     // howl must not return while a session is still open? The statement: "returns exactly when all sessions that
     // were in flight have finished" — a session finishes when its connection ends. Check before closing:
     child.drain();
     // (sessions whose handler panicked have ended on the server side; their client sockets do not count)
     // (a WebSocket session ends when its handler returns: after the message nothing is open any more)
-    let still_open = if ws { 0 } else { (0..before).filter(|id| panic_mask & (1 << id) == 0).count() };
+    let still_open = if ws { 0 } else { (0..before).filter(|id| panic_mask & (1 << id) == 0).count() + idle_n };
     if still_open > 0 && child.seen.iter().any(|l| l == "howl returned") {
         // keep-alive sessions are still open: returning now is early
         obs.fail("howl-returned-before-sessions-finished", format!("`howl` returned although {} keep-alive session(s) were still open (events: {:?})", still_open, child.seen));
@@ -902,6 +1008,12 @@ fn run_sessions(sc: &SessionCase, obs: &mut Obs) {
     } else {
         child.drain();
     }
+    if late_total > 0 {
+        let accepted_late = child.seen.iter().skip_while(|l| *l != "spinning").filter(|l| *l == "A1").count();
+        if accepted_late > late_served {
+            obs.fail("accepted-session-not-served", format!("the accept loop took {accepted_late} of the {late_total} connections that arrived together with the interrupt, but only {late_served} received a response before `howl` returned (events: {:?})", child.seen));
+        }
+    }
     if !exited {
         obs.fail("howl-did-not-return", format!("12 s after the last in-flight session finished `howl` has not returned (events: {:?})", child.seen));
     } else if !child.seen.iter().any(|l| l == "howl returned") {
@@ -913,7 +1025,7 @@ fn run_sessions(sc: &SessionCase, obs: &mut Obs) {
 impl Property for C18 {
     type Case = Case;
     const ID: &'static str = "C18";
-    const RULE: &'static str = "enumerated: every interleaving of the 4 steps of the real interrupt closure (H0 store flag, H1 take waker, H2 wake, H3 done — run on ctrlc's thread after a real raise(SIGINT)) with up to 9 steps of the accept loop (P0 poll begins, P1 accept returned Pending, P2 between flag load and waker publish; three polls) under a controller that grants one step at a time (hook H5) — 715 schedules, complete for that bound; generated: longer schedules (up to 24 grants) and child-process cases (a real howl with n ∈ 0–6 blocked in-flight sessions, real SIGINT, generated release order, 0–3 connection attempts after the accept loop left; some sessions' handlers panic while in flight; a tenth of the children start with SIGINT ignored (inherited disposition); a tenth of the cases uses 1–3 WebSocket sessions, a keep-alive timeout of 1 s and lets 1.7 s pass after the interrupt before releasing them). Oracle part 1 (no wall clock): at quiescence the loop has exited or a wake was delivered since its last poll began; `parked ∧ flag set ∧ no wake` is the lost interrupt. Oracle part 2: every in-flight request receives its complete response although the process exits as soon as howl returns; howl has not returned while a session is blocked or open; it returns after the last one ended; attempts after the accept loop left are not served. Non-trivial = a schedule with a handler step between P1 and the end of that poll, or n ≥ 2 with a release order different from the accept order; distinct by case.";
+    const RULE: &'static str = "enumerated: every interleaving of the 4 steps of the real interrupt closure (H0 store flag, H1 take waker, H2 wake, H3 done — run on ctrlc's thread after a real raise(SIGINT)) with up to 9 steps of the accept loop (P0 poll begins, P1 accept returned Pending, P2 between flag load and waker publish; three polls) under a controller that grants one step at a time (hook H5) — 715 schedules, complete for that bound; generated: longer schedules (up to 24 grants) and child-process cases (a real howl with n ∈ 0–6 blocked in-flight sessions, real SIGINT, generated release order, 0–3 connection attempts after the accept loop left; some sessions' handlers panic while in flight; 0–2 further connections sit idle in keep-alive; a fifth of the cases sends a second SIGINT while draining; a quarter lets 1–3 connections (requests sent) and the interrupt arrive while the only runtime thread is busy in a handler — those the accept loop takes (hook point A1) must be served; a tenth of the children start with SIGINT ignored (inherited disposition); a tenth of the cases uses 1–3 WebSocket sessions, a keep-alive timeout of 1 s and lets 1.7 s pass after the interrupt before releasing them). Oracle part 1 (no wall clock): at quiescence the loop has exited or a wake was delivered since its last poll began; `parked ∧ flag set ∧ no wake` is the lost interrupt. Oracle part 2: every in-flight request receives its complete response although the process exits as soon as howl returns; howl has not returned while a session is blocked or open; it returns after the last one ended; attempts after the accept loop left are not served. Non-trivial = a schedule with a handler step between P1 and the end of that poll, or n ≥ 2 with a release order different from the accept order; distinct by case.";
     const ASSUMPTIONS: &'static [&'static str] = &[
         "sequentially consistent interleavings at the granularity of the hook points (the code uses SeqCst throughout)",
         "only the tokio runtime; the glommio variant (mutex-based) is not exercised",
@@ -948,7 +1060,7 @@ impl Property for C18 {
         prop_oneof![
             5 => vec(prop::bool::weighted(0.3), 4..=24).prop_map(Case::Schedule),
             3 => (0u8..4, vec(prop_oneof![3 => Just(0u8), 2 => Just(1u8), 1 => 2u8..5], 0..=14)).prop_map(|(sessions, script)| Case::Drain { sessions, script }),
-            1 => (0u8..7, 0u8..4, any::<u64>(), 0u8..3, prop_oneof![3 => Just(0u8), 2 => any::<u8>()], prop::bool::weighted(0.1), prop::bool::weighted(0.1)).prop_map(|(before, after, release_seed, release_early, panic_mask, ws_linger, sigint_ignored_at_start)| Case::Sessions(SessionCase { before, after, release_seed, release_early, panic_mask, ws_linger, sigint_ignored_at_start })),
+            1 => (0u8..7, 0u8..4, any::<u64>(), 0u8..3, prop_oneof![3 => Just(0u8), 2 => any::<u8>()], prop::bool::weighted(0.1), prop::bool::weighted(0.1), (prop_oneof![3 => Just(0u8), 1 => 1u8..=2], prop::bool::weighted(0.2), prop_oneof![3 => Just(0u8), 1 => 1u8..=3])).prop_map(|(before, after, release_seed, release_early, panic_mask, ws_linger, sigint_ignored_at_start, (idle_keepalive, second_sigint, late))| Case::Sessions(SessionCase { before, after, release_seed, release_early, panic_mask, ws_linger, sigint_ignored_at_start, idle_keepalive, second_sigint, late })),
         ]
         .boxed()
     }
